@@ -53,6 +53,7 @@ class World:
         comms.release = lambda lok: True
         fs_os = _OS(self)
         dbutil.os = fs_os
+        shelve_db.os = fs_os  # the blob store as seen from dawgie.db.shelve itself
         dbutil.open = lambda p, mode='r', *a, **k: self.fs_open(p, mode)
         dbutil.shutil = NS(move=lambda a, b: self.rename(a, b))
         dbutil.tempfile = NS(mkstemp=self.mkstemp)
